@@ -604,6 +604,52 @@ func ruleR17() *Rule {
 							fsParam = iff.Cond.(*ssa.Parameter)
 						}
 					}
+					if !okc {
+						// a wider guard: fieldsSame, or the segments in focus number their fields exactly as the
+						// merged list does (a recognised element-wise comparison with fn's field-list parameter)
+						const (
+							evFS = 1 << 0
+							evEQ = 1 << 1
+						)
+						for _, prm := range fn.Params {
+							if isBoolParamNamed(prm, "fieldsSame") {
+								fsParam = prm
+							}
+						}
+						pa := newPathAnalysis(fn, func(ssa.Instruction, uint64, bool) []uint64 { return nil })
+						condTr := func(cond ssa.Value, outcome bool, ev uint64, _ func(ssa.Value) ssa.Value) uint64 {
+							if isBoolParamNamed(cond, "fieldsSame") {
+								if outcome {
+									return ev | evFS
+								}
+								return ev
+							}
+							if outcome && r17EqualityCall(c, fn, cond) {
+								return ev | evEQ
+							}
+							return ev
+						}
+						pa.condTr = condTr
+						pa.edgeTr = func(pred *ssa.BasicBlock, succIdx int, ev uint64) uint64 {
+							if succ := pred.Succs[succIdx]; succ.Dominates(pred) {
+								// a new iteration decides anew unless the decision was taken outside the loop
+								_ = succ
+							}
+							iff, ok := pred.Instrs[len(pred.Instrs)-1].(*ssa.If)
+							if !ok {
+								return ev
+							}
+							return condTr(iff.Cond, succIdx == 0, ev, func(v ssa.Value) ssa.Value { return v })
+						}
+						pa.run(0)
+						states := pa.statesBefore(cs)
+						okc = len(states) > 0 && !pa.truncated
+						for _, ev := range states {
+							if ev&(evFS|evEQ) == 0 {
+								okc = false
+							}
+						}
+					}
 					c.add2(okc, []string{"C06"}, "byCopying/"+funcShortName(fn)+"/fields-same", c.pos(cs), "encoded freq/norm/location bytes are copied only under fieldsSame (locations carry field ids)",
 						"mergeTermFreqNormLocsByCopying is reachable with fieldsSame false: location field ids of the input are copied verbatim into a segment that numbers fields differently", "call: "+describeInstr(p, cs))
 					// provenance of that parameter: the value computed by mergeFields
